@@ -333,13 +333,6 @@ func (x *Explorer) runPath(solver *smt.Solver, prefix []Decision) {
 				outcome, msg = "PANIC", fmt.Sprint(p)
 			}
 		}()
-		// run the package initialiser of the entry's package first
-		if pkg := x.entry.Pkg; pkg != nil {
-			in.initPackageGlobals(pkg)
-			if !in.inited[pkg] && x.cfg.shouldInit(pkg.Pkg.Path()) {
-				in.call(nil, token.NoPos, pkg.Func("init"), nil)
-			}
-		}
 		in.call(nil, token.NoPos, x.entry, nil)
 	}()
 
@@ -357,7 +350,13 @@ func (x *Explorer) runPath(solver *smt.Solver, prefix []Decision) {
 	if outcome == "PANIC" {
 		// an uncaught panic on a feasible path is reported like a failed assertion
 		if in.pos >= len(in.prefix) {
-			model := solver.Model(in.ctx.Vars)
+			model := map[string]uint64{}
+			func() {
+				defer func() { recover() }()
+				if in.ensureModel() {
+					model = in.model
+				}
+			}()
 			viol = &Violation{Label: "no-panic", Kind: "panic", Msg: msg, Model: model, Decisions: decString(in.trace), Sched: in.schedLog, Where: in.where()}
 		}
 	}
@@ -523,6 +522,21 @@ func (in *interp) decide(c *smt.Term) bool {
 	if in.ensureModel() {
 		// model-guided: the side the current model takes is feasible for free
 		b := smt.Eval(c, in.model, map[int]uint64{}) != 0
+		if os.Getenv("GOSMT_DBGMODEL") != "" {
+			chosen := c
+			if !b {
+				chosen = nc
+			}
+			if in.checkWith(chosen) == smt.Unsat {
+				bad := 0
+				for _, t := range in.pc {
+					if smt.Eval(t, in.model, map[int]uint64{}) == 0 {
+						bad++
+					}
+				}
+				fmt.Fprintf(os.Stderr, "decide: model-chosen side is UNSAT: model size %d, violates %d of %d pc conjuncts; cond=%s\n", len(in.model), bad, len(in.pc), c.String())
+			}
+		}
 		other := nc
 		if !b {
 			other = c
@@ -592,6 +606,17 @@ func (in *interp) ensureModel() bool {
 		return false
 	}
 	in.model = in.solver.Model(in.ctx.Vars)
+	if os.Getenv("GOSMT_DBGMODEL") != "" {
+		bad := 0
+		for _, t := range in.pc {
+			if smt.Eval(t, in.model, map[int]uint64{}) == 0 {
+				bad++
+			}
+		}
+		if bad > 0 {
+			fmt.Fprintf(os.Stderr, "ensureModel: fetched model of size %d violates %d of %d pc conjuncts (vars %d)\n", len(in.model), bad, len(in.pc), len(in.ctx.Vars))
+		}
+	}
 	return true
 }
 
@@ -701,6 +726,11 @@ func (in *interp) assertCond(label string, c value) {
 		if replaying {
 			return
 		}
+		if !in.ensureModel() {
+			// the solver cannot confirm that this path is feasible at all: inconclusive, not a violation
+			in.asserts = append(in.asserts, assertRec{label, "unknown"})
+			panic(abortPath{"UNKNOWN-PATH", "assertion " + label + " is false on a path whose feasibility the solver could not decide"})
+		}
 		in.asserts = append(in.asserts, assertRec{label, "violated"})
 		in.recordViolation(label, "assert", "")
 		panic(abortPath{"VIOLATED", "assertion " + label + " is false"})
@@ -784,6 +814,12 @@ func (in *interp) checkWithModel(t *smt.Term, label string) smt.Result {
 
 func (in *interp) recordViolationLocked(label, kind, msg string) {
 	model := in.solver.Model(in.ctx.Vars)
+	if os.Getenv("GOSMT_DBGMODEL") != "" {
+		fmt.Fprintf(os.Stderr, "recordViolation %s: model size %d vars %d pc %d\n", label, len(model), len(in.ctx.Vars), len(in.pc))
+		for _, t := range in.pc {
+			fmt.Fprintf(os.Stderr, "  pc eval=%d %s\n", smt.Eval(t, model, map[int]uint64{}), t.String())
+		}
+	}
 	v := Violation{Label: label, Kind: kind, Msg: msg, Model: model, Decisions: decString(in.trace), Sched: append([]int(nil), in.schedLog...), Where: in.where()}
 	in.x.mu.Lock()
 	in.x.res.Violations = append(in.x.res.Violations, v)
@@ -791,14 +827,24 @@ func (in *interp) recordViolationLocked(label, kind, msg string) {
 }
 
 func (in *interp) recordViolation(label, kind, msg string) {
-	if in.solver.Check() == smt.Sat {
-		in.recordViolationLocked(label, kind, msg)
-	} else {
-		v := Violation{Label: label, Kind: kind, Msg: msg, Model: map[string]uint64{}, Decisions: decString(in.trace), Where: in.where()}
-		in.x.mu.Lock()
-		in.x.res.Violations = append(in.x.res.Violations, v)
-		in.x.mu.Unlock()
+	model := map[string]uint64{}
+	if in.ensureModel() {
+		model = in.model
 	}
+	if os.Getenv("GOSMT_DBGMODEL") != "" {
+		fmt.Fprintf(os.Stderr, "recordViolation %s: model size %d vars %d pc %d replaying=%v\n", label, len(model), len(in.ctx.Vars), len(in.pc), in.pos < len(in.prefix))
+		for _, t := range in.pc {
+			str := t.String()
+			if len(str) > 150 {
+				str = str[:150]
+			}
+			fmt.Fprintf(os.Stderr, "  pc eval=%d %s\n", smt.Eval(t, model, map[int]uint64{}), str)
+		}
+	}
+	v := Violation{Label: label, Kind: kind, Msg: msg, Model: model, Decisions: decString(in.trace), Sched: append([]int(nil), in.schedLog...), Where: in.where()}
+	in.x.mu.Lock()
+	in.x.res.Violations = append(in.x.res.Violations, v)
+	in.x.mu.Unlock()
 }
 
 // renderConcrete prints v with symbolic parts evaluated under the model.
